@@ -346,9 +346,18 @@ class StorageFarmBroker(service.MultiService):
             by the given announcement.
         """
         assert isinstance(server_id, bytes)
+        certificates = []
+        for data in server["ann"].get("grid-manager-certificates", []):
+            try:
+                certificates.append(SignedCertificate.load(StringIO(json.dumps(data))))
+            except Exception:
+                # A certificate we cannot even parse grants nothing, but it
+                # must not hide the server's other certificates.
+                log.msg(format="ignoring unparseable grid-manager certificate from '%(id)s'",
+                        id=server_id, level=log.WEIRD)
         gm_verifier = create_grid_manager_verifier(
             self.storage_client_config.grid_manager_keys,
-            [SignedCertificate.load(StringIO(json.dumps(data))) for data in server["ann"].get("grid-manager-certificates", [])],
+            certificates,
             "pub-{}".format(str(server_id, "ascii")).encode("ascii"),  # server_id is v0-<key> not pub-v0-key .. for reasons?
         )
 
